@@ -4,3 +4,4 @@ import RSVerif.Properties.C02
 #print axioms RS.encode_slot_eq_matrix
 #print axioms RS.encode_pure
 #print axioms RS.flat_encode_is_cauchy
+#print axioms RS.source_encode_is_cauchy
